@@ -246,6 +246,8 @@ def check_driver_c07(ctx, drv, gen, sel):
         ctx.check(ok, "C07.e WIRING", "selector-arguments", scall[0].loc(), "the greedy selection receives (scores, maximisers, interval starts, interval ends, threshold) in that order", found=[valkey(x)[:40] for x in b])
         rv = p.value
         ctx.check(isinstance(rv, TupleV) and rv.items and rv.items[0] is ex_result(scall[0], p), "C07.e WIRING", "driver-result", drv.loc(), "the selected changepoints are the driver's first output", nontrivial=False)
+        okr = isinstance(rv, TupleV) and len(rv.items) == 5 and isinstance(rv.items[1], Num) and arr_of(rv.items[1]) is sc[0].data["arr"] and isinstance(rv.items[2], Num) and arr_of(rv.items[2]) is mx[0].data["arr"] and isinstance(rv.items[3], Num) and nf_equal(rv.items[3].nf, app("ivl_starts")) and isinstance(rv.items[4], Num) and nf_equal(rv.items[4].nf, app("ivl_ends"))
+        ctx.check(okr, "C07.e WIRING", "driver-result-order", drv.loc(), "the driver returns (changepoints, scores, maximisers, interval starts, interval ends) in that order", found=[valkey(x)[:30] for x in rv.items] if isinstance(rv, TupleV) else repr(rv))
 
 
 def ex_result(ev, p):
